@@ -96,6 +96,16 @@ CHECKS["C17"] = dict(
    text="60k+20k (quick) / 1.5M+500k (thorough) cases per build: to_string is deterministic, reaches a fixed point in one step (plain and pretty), plain and pretty decode to equal trees, the output is valid and decodes to the value whatever order the map yields keys in, toml::Table Display is deterministic and a fixed point, toml_edit's serializer carries the same data.",
    note="second build of the harness with toml's preserve_order feature (target-po)",
    design="4/C17")
+CHECKS["C18"] = dict(
+   technique="differential testing across cargo feature configurations: a seeded battery of generated documents and API-built structures run through a battery program compiled once per configuration; canonical dumps compared across configurations and with by-construction expectations",
+   text="6 (quick) / 14 (thorough) feature configurations of toml_edit and toml are built from /repo (a configuration that does not build is a violation) and run on 2000 battery items: dumps of decoded trees, API-built structures and printed text must be identical across configurations with the capability (and equal to the harness' own expectation for by-construction items), toml's key order must be insertion order exactly under preserve_order and sorted without, over-limit nesting must flip from reject to accept under unbounded only.",
+   note="the battery program shares no code with the harness; each configuration has its own target directory under harness/target-c18",
+   design="4/C18")
+CHECKS["C19"] = dict(
+   technique="generated programs: documents from a Rust-tokenizable sub-grammar embedded in toml!{} and as string literals, compiled against /repo and run; in-binary oracle (table equality with float bits); delta-reduction of failures by recompilation",
+   text="2 programs x 150 documents (quick) / 16 x 400 (thorough) are generated, compiled against /repo/crates/toml and run; inside the binary the macro's table must equal str::parse::<toml::Table>() of the same text; a program that does not compile is a violation; failures are reduced by dropping top-level entries (one compile per step).",
+   note="shapes the macro cannot take as Rust tokens (positive offsets, integers beyond i32, literal / multi-line strings, comments, numeric-looking bare keys) are outside the generated sub-grammar and listed in the evidence rule",
+   design="4/C19")
 NOT_YET = {}
 
 def main():
